@@ -3,6 +3,7 @@ in-flight table, events, loop-state reads), loop life-cycle scripts, observation
 property monitors (C01, C05, C06)."""
 import asyncio
 import collections
+import contextvars
 import functools
 import sys
 import threading
@@ -63,6 +64,9 @@ class CEnv:
 
 
 ENV = None
+# the caller on whose behalf code runs: a task the wrapper may create for the wrapped function inherits it (the function
+# need not run in the caller's own task)
+CALLER = contextvars.ContextVar('aiuti_verif_cache_caller', default=None)
 
 
 def _flush_md(E, c):
@@ -390,6 +394,8 @@ def run_scenario(scn, seed, pct=0, choices=None, preempt=None):
 
     async def f(key):
         c = E.cur()
+        if c is None:
+            c = CALLER.get()
         me = len(E.inv)
         lp = asyncio.get_running_loop()
         rec = dict(key=key, caller=c, start=S.vt, end=None, out=None, loop=getattr(lp, 'li', None))
@@ -433,6 +439,8 @@ def run_scenario(scn, seed, pct=0, choices=None, preempt=None):
         me = len(E.inv)
         if scn['fails'][me % 8] and not scn['durs'][me % 8] and (me + vsalt) % 2 == 0:
             c = E.cur()
+            if c is None:
+                c = CALLER.get()
             lp = asyncio.get_running_loop()
             E.inv.append(dict(key=key, caller=c, start=S.vt, end=S.vt, out=('raise', me), loop=getattr(lp, 'li', None)))
             E.owner_phase[c] = True
@@ -463,6 +471,7 @@ def run_scenario(scn, seed, pct=0, choices=None, preempt=None):
             tasks = []
 
             async def caller(c, cs):
+                CALLER.set(c)
                 if cs['delay']:
                     await asyncio.sleep(cs['delay'])
                 E.obs.append(f'call:{c}:{cs["key"]}:{li}')
